@@ -12,8 +12,10 @@ LOCAL SeqX == INSTANCE SequencesExt
 Range(s) == {s[i] : i \in 1..Len(s)}
 
 \* ------------------------------------------------------------------ strings
+\* s repeated n times (by halving: the recursion stays shallow for the long letter labels)
 RECURSIVE Rep(_, _)
-Rep(s, n) == IF n <= 0 THEN "" ELSE s \o Rep(s, n - 1)
+Rep(s, n) == IF n <= 0 THEN ""
+             ELSE LET h == Rep(s, n \div 2) IN IF n % 2 = 0 THEN h \o h ELSE h \o h \o s
 
 LowerLetters == <<"a", "b", "c", "d", "e", "f", "g", "h", "i", "j", "k", "l", "m",
                   "n", "o", "p", "q", "r", "s", "t", "u", "v", "w", "x", "y", "z">>
